@@ -47,7 +47,8 @@ type c07Prog struct {
 	Mut     string `json:"mut"`
 	Arg     int    `json:"arg"`
 	Arg2    int    `json:"arg2"`
-	InPlace bool   `json:"inPlace"` // mutate the verified entry object itself (and restore it) instead of a copy
+	LegacyV int    `json:"legacyV,omitempty"` // 1: (default codec) the entry is signed by a writer of format version 1 (the CBOR codec cannot write version 0): a codec that stamps that version before signing; verification uses the plain codec
+	InPlace bool   `json:"inPlace"`           // mutate the verified entry object itself (and restore it) instead of a copy
 }
 
 var c07Muts = []string{
@@ -85,6 +86,7 @@ func genC07(t *rapid.T) c07Prog {
 		Arg:     rapid.IntRange(0, 1<<16).Draw(t, "arg"),
 		Arg2:    rapid.IntRange(0, 1<<16).Draw(t, "arg2"),
 		InPlace: rapid.Bool().Draw(t, "inPlace"),
+		LegacyV: rapid.SampledFrom([]int{0, 0, 0, 0, 1}).Draw(t, "legacyV"),
 	}
 	perm := rapid.Permutation(seqInts(len(cidPool))).Draw(t, "links")
 	nn := rapid.IntRange(0, 6).Draw(t, "nnext")
@@ -164,12 +166,32 @@ func createEntry(tb ev.TB, api *fakeipfs.Store, writer int, io iface.IO, logID s
 	return e
 }
 
+// versionStampIO is the codec of a writer of an older format version: it stamps that version on the entry before it is
+// signed and otherwise is the codec it embeds.
+type versionStampIO struct {
+	iface.IO
+	v uint64
+}
+
+func (s versionStampIO) PreSign(e iface.IPFSLogEntry) (iface.IPFSLogEntry, error) {
+	c := e.Copy()
+	c.SetV(s.v)
+	return c, nil
+}
+
 // C07 — signatures are tamper-evident over every signed field.
 func runC07(tb ev.TB, p c07Prog) ev.Result {
 	store := fakeipfs.NewStore()
 	io := world.IO(world.Codec(p.Codec%3), 0)
 	next, refs := poolCids(p.Next), poolCids(p.Refs)
-	e := createEntry(tb, store, p.Writer, io, p.LogID, p.Payload, next, refs, p.ClockID, p.Time)
+	var writerIO iface.IO = io
+	if p.LegacyV > 0 && p.Codec%3 == 0 {
+		writerIO = versionStampIO{IO: io, v: uint64(2 - p.LegacyV)}
+	}
+	e := createEntry(tb, store, p.Writer, writerIO, p.LogID, p.Payload, next, refs, p.ClockID, p.Time)
+	if p.LegacyV > 0 && p.Codec%3 == 0 && e.GetV() != uint64(2-p.LegacyV) {
+		tb.Fatalf("harness: the entry signed by the version-%d writer carries version %d", 2-p.LegacyV, e.GetV())
+	}
 	provider := world.Identity(p.Writer).Provider
 	if err := e.Verify(provider, io); err != nil {
 		tb.Fatalf("freshly created entry does not verify (codec %s): %v", world.Codec(p.Codec%3), err)
@@ -193,6 +215,9 @@ func runC07(tb ev.TB, p c07Prog) ev.Result {
 		}
 	}
 	classes := []string{"mut-" + p.Mut, "codec-" + world.Codec(p.Codec%3).String()}
+	if p.LegacyV > 0 && p.Codec%3 == 0 {
+		classes = append(classes, fmt.Sprintf("signed-as-format-version-%d", 2-p.LegacyV))
+	}
 	skip := func(why string) ev.Result {
 		return ev.Result{Classes: append(classes, "inapplicable-"+why)}
 	}
@@ -329,7 +354,11 @@ func runC07(tb ev.TB, p c07Prog) ev.Result {
 		list = append(append(append([]cid.Cid(nil), list[:i]...), freshCid(e.GetNext(), e.GetRefs())), list[i:]...)
 		m.SetRefs(list)
 	case "v":
-		m.SetV([]uint64{0, 1, 3, 2 + uint64(p.Arg%5) + 1}[p.Arg2%4])
+		nv := []uint64{0, 1, 3, 2 + uint64(p.Arg%5) + 1}[p.Arg2%4]
+		if nv == e.GetV() { // (an entry signed as an older format version)
+			nv = 2
+		}
+		m.SetV(nv)
 	case "clock-id":
 		id := append([]byte(nil), e.GetClock().GetID()...)
 		id[p.Arg%len(id)] ^= byte(1 << (p.Arg2 % 8))
@@ -458,7 +487,7 @@ func runC07(tb ev.TB, p c07Prog) ev.Result {
 
 func TestC07(t *testing.T) {
 	c := ev.Get("C07")
-	c.Rule = "rapid generates an entry (arbitrary binary payload incl. invalid UTF-8, valid-UTF-8 log id, 0-6 predecessors and 0-6 references drawn without repetition from a CID pool, default or custom clock id, time over the whole int range with weight on 2^24, 2^31, 2^32, 2^53 and their neighbours, writer 0-3, default/link-key/legacy codec), creates and signs it with CreateEntryWithIO, checks it verifies, then applies one of 40 single-field mutations (incl. keys that are flipped, truncated, extended, garbage or cleared) to a copy and requires Verify to fail. Non-trivial = the mutation touched a list of length >= 2 or the payload has a non-ASCII byte; distinct = distinct program. Payload mutations whose json.Marshal(string(payload)) equals the original's are the known finding C07/payload-json-collision: excluded and counted."
+	c.Rule = "rapid generates an entry (arbitrary binary payload incl. invalid UTF-8, valid-UTF-8 log id, 0-6 predecessors and 0-6 references drawn without repetition from a CID pool, default or custom clock id, time over the whole int range with weight on 2^24, 2^31, 2^32, 2^53 and their neighbours, writer 0-3, default/link-key/legacy codec), creates and signs it with CreateEntryWithIO (with the default codec in a fifth of the cases as a writer of format version 1 would: a codec that stamps that version before signing), checks it verifies, then applies one of 40 single-field mutations (incl. keys that are flipped, truncated, extended, garbage or cleared) to a copy and requires Verify to fail. Non-trivial = the mutation touched a list of length >= 2 or the payload has a non-ASCII byte; distinct = distinct program. Payload mutations whose json.Marshal(string(payload)) equals the original's are the known finding C07/payload-json-collision: excluded and counted."
 	c.Assumptions = []string{"log ids are valid UTF-8 (they are names chosen by the application)", "signing is deterministic RFC 6979 ECDSA over secp256k1 with the harness's fixed keys"}
 	ev.Check(t, "C07", genC07, runC07)
 }
